@@ -14,7 +14,7 @@ TRUSTED = ["independent Python oracle of the property text (harness/props/names_
 ASSUMPTIONS = ["characters are compared by code point; CPython's flags are not consulted by the splitter"]
 
 FIRST = ["Ab", "Donald", "{von Neumann}", "J.", "\\'Etienne", "Émile", "{\\'E}mile", "and", "And", "de", "Anderson", "band", "an", "d",
-         "Ǆ", "x\\", "{and}", "Strand~and", "o{r}", "}", "{"]
+         "Ǆ", "x\\", "{and}", "Strand~and", "o{r}", "}", "{"] + nc.UNI_EDGE
 GLUE = [" and ", " AND ", " aNd ", "  and\t", "\nand\n", " and\r\n", ", ", " ", "~", " and~", "~and ", " and and ", " and ",
         " and ", " , ", " an d ", " a nd ", " \\and ", " and} ", " {and} "]
 
@@ -70,6 +70,13 @@ def generate(rng, tier):
             for b in nc.C12_TOKENS:
                 for t in tails:
                     s = "X " + a + g1 + "and " + b + t
+                    if s not in seen:
+                        seen.add(s)
+                        cases.append({"stream": "templates", "input": {"level": "fn", "s": s}})
+    for u in nc.UNI_EDGE:
+        for g in (" and ", "\tAND\n", " and {x} and "):
+            for t in ("Ab", u, "{" + u + "} C"):
+                for s in (u + g + t, "Ab " + u + g + t, "{" + u + "}" + g + t, t + g + u):
                     if s not in seen:
                         seen.add(s)
                         cases.append({"stream": "templates", "input": {"level": "fn", "s": s}})
@@ -170,6 +177,15 @@ def impl(case):
         enc_got = [enc.enc_str(p) for p in got] if isinstance(got, list) else [[-7]]
         rec["sx_out"] = implutil.r_ok([enc_got, [enc_got] if bal else []])
         ok, detail = check_function(s, got)
+        if ok and isinstance(got, list):
+            # results of separate calls are independent objects: editing one must not change what a later call returns
+            snapshot = list(got)
+            got.append("edited")
+            got[:1] = ["edited"]
+            again = sp(s)
+            if again != snapshot:
+                ok, detail = False, "a second call on %r returned %r after the first result (%r) was edited in place" % (s, again, snapshot)
+            got = snapshot
         if ok and "expected" in inp and got != inp["expected"]:
             ok, detail = False, "repository corpus: %r -> %r, BibTeX gives %r" % (s, got, inp["expected"])
         if "expected" in inp:
